@@ -544,6 +544,8 @@ enum Kind {
 
 #[derive(Clone, Debug)]
 struct Decl {
+    /// the module it stands in, below the package root: `""` or `"sub."`
+    module: &'static str,
     name: String,
     kind: Kind,
     params: Vec<ST>,
@@ -558,8 +560,8 @@ struct Decl {
 impl Decl {
     fn key(&self) -> String {
         match self.kind {
-            Kind::Test => format!("pkg.test#{}", self.name),
-            _ => format!("pkg.{}", self.name),
+            Kind::Test => format!("pkg.{}test#{}", self.module, self.name),
+            _ => format!("pkg.{}{}", self.module, self.name),
         }
     }
     /// the name to ask `get_function` for
@@ -665,6 +667,10 @@ impl Decl {
                 other => self.side_ty(other).sexp(cx),
             };
             return format!("(fm #{} ({params}) {} {})", hex(&self.key()), side(a), side(r));
+        }
+        if let Kind::Test = self.kind {
+            // the key a test is known under (`test#…`) is the model's business
+            return format!("(test #{} #{})", hex(&format!("pkg.{}", self.module)), hex(&self.name));
         }
         format!("(fn #{} ({params}) {})", hex(&self.key()), self.ret.sexp(cx))
     }
@@ -948,6 +954,14 @@ fn runtime(env: usize) -> Runtime<NoCtx> {
             #[clone] type Foo = Val<Foo>;
             /// another registered type
             #[clone] type Bar = Val<Bar>;
+            /// a host function: registered with the runtime, not a function of any script
+            fn host_twice(x: u32) -> u32 { x.wrapping_mul(2) }
+            /// a host constant
+            const HOST_LIMIT: u32 = 42;
+            impl Val<Foo> {
+                /// a method of a registered type
+                fn get(x: Val<Foo>) -> u32 { x.0.0 }
+            }
         },
         1 => library! {
             /// a module whose types are named like primitives
@@ -956,6 +970,10 @@ fn runtime(env: usize) -> Runtime<NoCtx> {
                 #[clone] type u32 = Val<Foo>;
                 /// `foo.String` is not `String`
                 #[clone] type String = Val<Bar>;
+                /// a host function inside a module
+                fn host_twice(x: u32) -> u32 { x.wrapping_mul(2) }
+                /// a host constant inside a module
+                const HOST_LIMIT: u32 = 42;
             }
         },
         2 => library! {
@@ -966,6 +984,10 @@ fn runtime(env: usize) -> Runtime<NoCtx> {
                 /// `net.i64` is not `i64`
                 #[clone] type i64 = Val<Bar>;
             }
+            /// a host function
+            fn host_twice(x: u32) -> u32 { x.wrapping_mul(2) }
+            /// a host constant
+            const HOST_LIMIT: u32 = 42;
         },
         _ => library! {
             /// a module
@@ -976,7 +998,11 @@ fn runtime(env: usize) -> Runtime<NoCtx> {
                 mod bar {
                     /// `foo.bar.bool` is not `bool`
                     #[clone] type bool = Val<Bar>;
+                    /// a host function two modules deep
+                    fn host_twice(x: u32) -> u32 { x.wrapping_mul(2) }
                 }
+                /// a host constant inside a module
+                const HOST_LIMIT: u32 = 42;
             }
         },
     };
@@ -1118,8 +1144,12 @@ fn key_class(c: &str) -> String {
 // ------------------------------------------------------------ one script
 
 struct Script {
+    /// the root module's source; further modules follow a `//// module <name>` line each
     src: String,
+    /// the functions, filtermaps and tests of all modules
     decls: Vec<Decl>,
+    /// the declarations that are not functions: constants, types
+    extras: Vec<Extra>,
     cx: Cx,
     /// the plan's class: `random`, or the boundary class the script represents
     kind: &'static str,
@@ -1214,7 +1244,7 @@ fn mentions(r: &RT, what: &str) -> bool {
     }
 }
 
-fn gen_script(fam: &[Entry], seed: u64, index: u64, thorough: bool) -> (Script, Vec<Pair>) {
+fn gen_random_script(fam: &[Entry], seed: u64, index: u64, thorough: bool) -> (Script, Vec<Pair>) {
     let mut p = Prng::for_case(seed, index);
     let Plan { cx, kind: script_kind, focus, forced } = plan(seed, index, thorough);
     let targets_n = 8usize;
@@ -1346,7 +1376,7 @@ fn gen_script(fam: &[Entry], seed: u64, index: u64, thorough: bool) -> (Script, 
                     _ => "redeclared-name-near",
                 };
             }
-            let mut d = Decl { name, kind, params, ret, label: label2, target: t };
+            let mut d = Decl { module: "", name, kind, params, ret, label: label2, target: t };
             if let Kind::Filtermap(a, r) = &d.kind {
                 d.ret = ST::Ver(Box::new(d.side_ty(a)), Box::new(d.side_ty(r)));
                 // literal type variables below a constructor: the class the defaults must reach
@@ -1438,7 +1468,7 @@ fn gen_script(fam: &[Entry], seed: u64, index: u64, thorough: bool) -> (Script, 
     }
     // a filtermap with an unused side for a random fm-shaped target's parameter list
     // (covered above); one test
-    let td = Decl { name: "t0".into(), kind: Kind::Test, params: vec![], ret: ST::Ver(Box::new(ST::Unit), Box::new(ST::Unit)), label: "test", target: 0 };
+    let td = Decl { module: "", name: "t0".into(), kind: Kind::Test, params: vec![], ret: ST::Ver(Box::new(ST::Unit), Box::new(ST::Unit)), label: "test", target: 0 };
     let ti = decls.len();
     decls.push(td);
     // `fn() -> Verdict<(), ()>` is in the family (light, ret0)
@@ -1461,7 +1491,353 @@ fn gen_script(fam: &[Entry], seed: u64, index: u64, thorough: bool) -> (Script, 
     for d in &decls {
         src.push_str(&d.src(&mut p, &cx));
     }
-    (Script { src, decls, cx, kind: script_kind }, pairs)
+    (Script { src, decls, extras: vec![], cx, kind: script_kind }, pairs)
+}
+
+// ------------------------------------- names that are no function of the script
+
+/// A declaration of the script that is **not** a function: a constant (whose
+/// initialiser the compiler turns into a function of type `fn() -> T`), a
+/// record, an enum. `get_function` must refuse its name under every type.
+#[derive(Clone, Debug)]
+struct Extra {
+    /// `const` | `type`
+    kind: &'static str,
+    /// the module it stands in, below the package root: `""` or `"sub."`
+    module: &'static str,
+    name: String,
+    /// a constant's type
+    ty: Option<ST>,
+    /// the declaration as written
+    src: String,
+}
+
+impl Extra {
+    fn sexp(&self, cx: &Cx) -> String {
+        let m = hex(&format!("pkg.{}", self.module));
+        match (self.kind, &self.ty) {
+            ("const", Some(t)) => format!("(const #{m} #{} {})", hex(&self.name), t.sexp(cx)),
+            _ => format!("(type #{m} #{})", hex(&self.name)),
+        }
+    }
+}
+
+/// the line that begins a further module in a script's text
+const MODULE_MARK: &str = "\n//// module ";
+
+/// Types a constant is declared at, each with an initialiser: every leaf
+/// (passed in a register or through a pointer), `()`, and one or two levels of
+/// every constructor. `fn() -> T` is in the family for each.
+fn const_pool() -> Vec<(ST, &'static str)> {
+    let b = |t: ST| Box::new(t);
+    vec![
+        (ST::Prim("u32"), "42"),
+        (ST::Prim("String"), "\"hello\""),
+        (ST::Prim("bool"), "true"),
+        (ST::Prim("IpAddr"), "1.2.3.4"),
+        (ST::Prim("i64"), "-5"),
+        (ST::Prim("Prefix"), "1.2.3.0/24"),
+        (ST::Prim("f64"), "1.5"),
+        (ST::Prim("Asn"), "AS65000"),
+        (ST::Prim("u8"), "7"),
+        (ST::Prim("char"), "'x'"),
+        (ST::Prim("f32"), "0.5"),
+        (ST::Prim("u16"), "3"),
+        (ST::Prim("i8"), "-1"),
+        (ST::Prim("i16"), "2"),
+        (ST::Prim("i32"), "-70000"),
+        (ST::Prim("u64"), "9"),
+        (ST::Unit, "()"),
+        (ST::Opt(b(ST::Prim("u32"))), "Some(3)"),
+        (ST::List(b(ST::Prim("u8"))), "[1, 2]"),
+        (ST::Res(b(ST::Prim("u32")), b(ST::Prim("u32"))), "Ok(3)"),
+        (ST::Ver(b(ST::Prim("u8")), b(ST::Unit)), "Verdict.Accept(7)"),
+        (ST::Opt(b(ST::Opt(b(ST::Prim("u8"))))), "Some(Some(7))"),
+        (ST::List(b(ST::List(b(ST::Prim("u64"))))), "[[9]]"),
+        (ST::List(b(ST::Prim("String"))), "[\"a\", \"b\"]"),
+    ]
+}
+
+fn find_entry(fam: &[Entry], args: &[RT], ret: &RT) -> Option<usize> {
+    fam.iter().position(|e| e.args == args && e.ret == *ret)
+}
+
+fn unit_rt() -> RT {
+    RT::Leaf("()")
+}
+
+/// `fn() -> Verdict<(), ()>`: the type of every test
+fn test_entry(fam: &[Entry]) -> usize {
+    find_entry(fam, &[], &RT::Ver(Box::new(unit_rt()), Box::new(unit_rt()))).expect("fn() -> Verdict<(), ()> in family")
+}
+
+fn mentions_reserved(t: &ST, cx: &Cx) -> bool {
+    match t {
+        ST::Prim(n) => cx.shadowed(n).is_some(),
+        ST::Opt(x) => cx.shadowed("Option").is_some() || mentions_reserved(x, cx),
+        ST::List(x) => cx.shadowed("List").is_some() || mentions_reserved(x, cx),
+        ST::Res(a, b2) => cx.shadowed("Result").is_some() || mentions_reserved(a, cx) || mentions_reserved(b2, cx),
+        ST::Ver(a, b2) => cx.shadowed("Verdict").is_some() || mentions_reserved(a, cx) || mentions_reserved(b2, cx),
+        _ => false,
+    }
+}
+
+fn const_extra(module: &'static str, name: &str, t: &ST, init: &str, cx: &Cx) -> Extra {
+    let mut p = Prng::new(0);
+    // a sub-module does not see the root's declarations: its type names are the global ones
+    let plain = Cx::default();
+    let ty = t.src(&mut p, if module.is_empty() { cx } else { &plain });
+    Extra { kind: "const", module, name: name.into(), ty: Some(t.clone()), src: format!("const {name}: {ty} = {init};\n") }
+}
+
+/// The Rust function types a name that is no function is asked under:
+/// `fn() -> T` for the item's own type (what the initialiser of a constant
+/// is, as compiled code), `fn()`, the true type of a neighbouring function;
+/// with `full` also the type of a test and a one-parameter shape.
+fn shapes(fam: &[Entry], ty: Option<&ST>, neighbour: usize, full: bool) -> Vec<(&'static str, usize)> {
+    let mut v = vec![];
+    if let Some(i) = ty.and_then(|t| t.map()).and_then(|r| find_entry(fam, &[], &r)) {
+        v.push(("nullary-of-its-type", i));
+    }
+    v.push(("unit-fn", find_entry(fam, &[], &unit_rt()).expect("fn() -> () in family")));
+    v.push(("neighbours-true-type", neighbour));
+    if full {
+        v.push(("test-type", test_entry(fam)));
+        v.push(("one-parameter", find_entry(fam, &[RT::Leaf("u64")], &unit_rt()).expect("fn(u64) -> () in family")));
+    }
+    v
+}
+
+/// The requests for every name of the script that is no function: constants
+/// and types (as spelled, and in near-miss spellings: with the `pkg.` prefix,
+/// as `constant#K`, through the wrong module), the bare names of tests,
+/// functions through a wrong module path. All must be refused.
+fn extra_pairs(fam: &[Entry], s: &Script, full: bool, out: &mut Vec<Pair>) {
+    let neighbour = s.decls.first().map(|d| d.target).unwrap_or(0);
+    let has_sub = s.src.contains(MODULE_MARK);
+    let declared: BTreeSet<String> = s.decls.iter().map(|d| d.ask()).collect();
+    let mut asked: BTreeSet<(String, usize)> = BTreeSet::new();
+    let mut push = |name: String, entry: usize, label: String| {
+        if !declared.contains(&name) && asked.insert((name.clone(), entry)) {
+            out.push(Pair { decl: None, name, entry, label });
+        }
+    };
+    for x in &s.extras {
+        let what = if x.kind == "const" { "const" } else { "type" };
+        let exact = format!("{}{}", x.module, x.name);
+        for (shape, e) in shapes(fam, x.ty.as_ref(), neighbour, full) {
+            push(exact.clone(), e, format!("not-a-function:{what}:{shape}"));
+        }
+        let mut spellings = vec![format!("pkg.{exact}"), format!("{exact} ")];
+        if what == "const" {
+            spellings.push(format!("{}constant#{}", x.module, x.name));
+            spellings.push(format!("constant#{exact}"));
+        }
+        if x.name.to_lowercase() != x.name {
+            spellings.push(format!("{}{}", x.module, x.name.to_lowercase()));
+        }
+        if !x.module.is_empty() {
+            // through no module, and through the wrong one
+            spellings.push(x.name.clone());
+            spellings.push(format!("pkg.{}", x.name));
+        } else if has_sub {
+            spellings.push(format!("sub.{}", x.name));
+        }
+        if !full {
+            spellings.truncate(3);
+        }
+        for sp in spellings {
+            for (shape, e) in shapes(fam, x.ty.as_ref(), neighbour, false).into_iter().take(2) {
+                push(sp.clone(), e, format!("not-a-function:{what}-spelling:{shape}"));
+            }
+        }
+    }
+    for d in &s.decls {
+        match d.kind {
+            // a test is `test#<name>`: its bare name is no function
+            Kind::Test => {
+                for (shape, e) in [("test-type", test_entry(fam)), ("unit-fn", find_entry(fam, &[], &unit_rt()).unwrap())] {
+                    push(format!("{}{}", d.module, d.name), e, format!("not-a-function:test-bare-name:{shape}"));
+                }
+                if !d.module.is_empty() {
+                    push(format!("test#{}", d.name), test_entry(fam), "not-a-function:wrong-module-path:true-type".into());
+                    push(format!("test#{}{}", d.module, d.name), test_entry(fam), "not-a-function:wrong-module-path:true-type".into());
+                }
+            }
+            _ if !d.module.is_empty() => {
+                // a module's function without its path, with too much of it, with other separators
+                let m = d.module.trim_end_matches('.');
+                for nm in [d.name.clone(), format!("pkg.{m}.{}", d.name), format!("{m}.{m}.{}", d.name), format!("{m}::{}", d.name), format!("{m}/{}", d.name), format!(".{}", d.name)] {
+                    push(nm, d.target, "not-a-function:wrong-module-path:true-type".into());
+                }
+            }
+            _ if has_sub && (full || d.name == "q0") => {
+                push(format!("sub.{}", d.name), d.target, "not-a-function:wrong-module-path:true-type".into());
+            }
+            _ => {}
+        }
+    }
+}
+
+/// a declaration with the signature of family entry `entry`
+fn decl_of(fam: &[Entry], module: &'static str, name: &str, kind: Kind, entry: usize, label: &'static str) -> Decl {
+    Decl { module, name: name.into(), kind, params: fam[entry].args.iter().map(unmap).collect(), ret: unmap(&fam[entry].ret), label, target: entry }
+}
+
+/// the text of a script: the root module (prelude, re-declared names, extras,
+/// functions), then every further module after its marker line
+fn assemble(cx: &Cx, decls: &[Decl], extras: &[Extra], p: &mut Prng) -> String {
+    let mut src = String::from(PRELUDE);
+    src.push_str(&cx.shadow_decls());
+    for x in extras.iter().filter(|x| x.module.is_empty()) {
+        src.push_str(&x.src);
+    }
+    for d in decls.iter().filter(|d| d.module.is_empty()) {
+        src.push_str(&d.src(p, cx));
+    }
+    let mut modules: Vec<&'static str> = extras.iter().map(|x| x.module).chain(decls.iter().map(|d| d.module)).filter(|m| !m.is_empty()).collect();
+    modules.sort();
+    modules.dedup();
+    let plain = Cx::default();
+    for m in modules {
+        src.push_str(MODULE_MARK);
+        src.push_str(m.trim_end_matches('.'));
+        src.push('\n');
+        for x in extras.iter().filter(|x| x.module == m) {
+            src.push_str(&x.src);
+        }
+        for d in decls.iter().filter(|d| d.module == m) {
+            src.push_str(&d.src(p, &plain));
+        }
+    }
+    src
+}
+
+/// number of class representatives at the head of every run
+const REPS: u64 = 5;
+
+/// Script number `k < REPS` of every run, whatever the seed: one per kind of
+/// item that is not a function of the script — constants (every type of the
+/// pool), the items of a sub-module, types and tests, generated helpers,
+/// names the host registered. Each name is asked under every shape of
+/// `shapes`; the functions of the script are asked under their true types too
+/// (so the script is known to be what it is meant to be).
+fn rep_script(fam: &[Entry], k: u64) -> (Script, Vec<Pair>) {
+    let cx = Cx::default();
+    let mut p = Prng::new(0xC04 + k);
+    let e = |args: &[RT], ret: RT| find_entry(fam, args, &ret).expect("family entry of a representative");
+    let leaf = |n: &'static str| RT::Leaf(n);
+    let mut decls = vec![
+        decl_of(fam, "", "q0", Kind::Fn, e(&[leaf("u32")], leaf("bool")), "exact"),
+        decl_of(fam, "", "q1", Kind::Fn, e(&[], leaf("u32")), "exact"),
+        decl_of(fam, "", "t0", Kind::Test, test_entry(fam), "test"),
+    ];
+    let mut extras: Vec<Extra> = vec![];
+    let kind: &'static str = match k {
+        0 => {
+            // every type of the pool, a register-passed and a by-reference one first
+            for (i, (t, init)) in const_pool().iter().enumerate() {
+                extras.push(const_extra("", &format!("K{i}"), t, init, &cx));
+            }
+            // a constant whose name differs from a function's by case only, of that function's return type
+            extras.push(const_extra("", "Q1", &ST::Prim("u32"), "1", &cx));
+            "rep:constants"
+        }
+        1 => {
+            extras.push(const_extra("", "K0", &ST::Prim("u32"), "42", &cx));
+            extras.push(const_extra("sub.", "SK0", &ST::Prim("u32"), "5", &cx));
+            extras.push(const_extra("sub.", "SK1", &ST::Prim("String"), "\"sub\"", &cx));
+            extras.push(const_extra("sub.", "K0", &ST::Prim("bool"), "true", &cx));
+            extras.push(Extra { kind: "type", module: "sub.", name: "SR".into(), ty: None, src: "record SR { a: u8 }\n".into() });
+            decls.push(decl_of(fam, "sub.", "s0", Kind::Fn, e(&[leaf("u8")], leaf("u8")), "exact"));
+            decls.push(decl_of(fam, "sub.", "s1", Kind::Fn, e(&[], leaf("bool")), "exact"));
+            decls.push(decl_of(fam, "sub.", "st", Kind::Test, test_entry(fam), "test"));
+            "rep:sub-module"
+        }
+        2 => {
+            extras.push(Extra { kind: "type", module: "", name: "G0".into(), ty: None, src: "record G0[T] { a: T }\n".into() });
+            extras.push(Extra { kind: "type", module: "", name: "H0".into(), ty: None, src: "enum H0[T] { A(T), B }\n".into() });
+            // a test and a function of one name: two different keys
+            decls.push(decl_of(fam, "", "q0", Kind::Test, test_entry(fam), "test"));
+            decls.push(decl_of(fam, "", "t1", Kind::Test, test_entry(fam), "test"));
+            "rep:types-and-tests"
+        }
+        3 => {
+            // constants and list literals make the compiler generate drop / clone / eq helpers
+            for (i, (t, init)) in const_pool().iter().enumerate().filter(|(_, (t, _))| matches!(t, ST::Prim("String") | ST::List(_) | ST::Opt(_))) {
+                extras.push(const_extra("", &format!("K{i}"), t, init, &cx));
+            }
+            "rep:generated-helpers"
+        }
+        _ => "rep:host-names",
+    };
+    // the prelude's types are items of every script
+    for n in ["R0", "E0"] {
+        extras.push(Extra { kind: "type", module: "", name: n.into(), ty: None, src: String::new() });
+    }
+    let src = assemble(&cx, &decls, &extras, &mut p);
+    let script = Script { src, decls, extras, cx, kind };
+    let mut pairs: Vec<Pair> = vec![];
+    for (di, d) in script.decls.iter().enumerate() {
+        pairs.push(Pair { decl: Some(di), name: d.ask(), entry: d.target, label: if matches!(d.kind, Kind::Test) { "test-exact".into() } else { "exact".into() } });
+        // … and under the other declarations' true types
+        for o in script.decls.iter().filter(|o| o.target != d.target) {
+            pairs.push(Pair { decl: Some(di), name: d.ask(), entry: o.target, label: "neighbours-true-type".into() });
+        }
+    }
+    extra_pairs(fam, &script, true, &mut pairs);
+    (script, pairs)
+}
+
+/// Script number `index` of a run: the class representatives first, then the
+/// generated scripts — each with a few declarations that are no functions
+/// (constants of types walking the pool, every third script a sub-module with
+/// a function, a test and a constant of its own).
+fn gen_script(fam: &[Entry], seed: u64, index: u64, thorough: bool) -> (Script, Vec<Pair>) {
+    if index < REPS {
+        return rep_script(fam, index);
+    }
+    let (mut script, mut pairs) = gen_random_script(fam, seed, index - REPS, thorough);
+    let mut p = Prng::for_case(seed ^ 0xE87A, index);
+    let pool: Vec<(ST, &'static str)> = const_pool().into_iter().filter(|(t, _)| !mentions_reserved(t, &script.cx)).collect();
+    let start = (seed as usize).wrapping_mul(7).wrapping_add(index as usize * 3);
+    for i in 0..3usize {
+        let (t, init) = &pool[(start + i) % pool.len()];
+        script.extras.push(const_extra("", &format!("K{i}"), t, init, &script.cx));
+    }
+    if index % 3 == 0 {
+        let leafy = |e: &Entry| e.args.len() <= 2 && e.args.iter().chain(std::iter::once(&e.ret)).all(|r| matches!(r, RT::Leaf(_)));
+        let cands: Vec<usize> = (0..fam.len()).filter(|i| leafy(&fam[*i])).collect();
+        let t = *p.pick(&cands);
+        script.decls.push(decl_of(fam, "sub.", "s0", Kind::Fn, t, "exact"));
+        script.decls.push(decl_of(fam, "sub.", "st", Kind::Test, test_entry(fam), "test"));
+        let (ty, init) = &pool[(start + 3) % pool.len()];
+        script.extras.push(const_extra("sub.", "SK0", ty, init, &script.cx));
+        for di in [script.decls.len() - 2, script.decls.len() - 1] {
+            let d = &script.decls[di];
+            pairs.push(Pair { decl: Some(di), name: d.ask(), entry: d.target, label: if matches!(d.kind, Kind::Test) { "test-exact".into() } else { "exact".into() } });
+        }
+    }
+    for n in ["R0", "E0"] {
+        script.extras.push(Extra { kind: "type", module: "", name: n.into(), ty: None, src: String::new() });
+    }
+    // the text: the generated root as it is, the extras of the root after it, then the sub-module
+    for x in script.extras.iter().filter(|x| x.module.is_empty()) {
+        script.src.push_str(&x.src);
+    }
+    if script.decls.iter().any(|d| !d.module.is_empty()) {
+        script.src.push_str(MODULE_MARK);
+        script.src.push_str("sub\n");
+        for x in script.extras.iter().filter(|x| !x.module.is_empty()) {
+            script.src.push_str(&x.src);
+        }
+        let plain = Cx::default();
+        for d in script.decls.iter().filter(|d| !d.module.is_empty()) {
+            script.src.push_str(&d.src(&mut p, &plain));
+        }
+    }
+    extra_pairs(fam, &script, false, &mut pairs);
+    (script, pairs)
 }
 
 fn lean_request(s: &Script, helpers: &[String], pair: &Pair, e: &Entry, p: &mut Prng) -> String {
@@ -1478,13 +1854,17 @@ fn lean_request(s: &Script, helpers: &[String], pair: &Pair, e: &Entry, p: &mut 
             fns.push_str(&s.decls[k].sexp(&s.cx));
         }
     }
-    // name probes must see every declared key
+    // name probes must see every declared key, and every declaration that is no function
     if pair.decl.is_none() {
         for (k, d) in s.decls.iter().enumerate() {
             if seen.insert(k) {
                 fns.push(' ');
                 fns.push_str(&d.sexp(&s.cx));
             }
+        }
+        for x in &s.extras {
+            fns.push(' ');
+            fns.push_str(&x.sexp(&s.cx));
         }
     }
     for h in helpers.iter().take(if pair.decl.is_none() { 50 } else { 2 }) {
@@ -1500,11 +1880,28 @@ fn lean_request(s: &Script, helpers: &[String], pair: &Pair, e: &Entry, p: &mut 
     format!("c04 get {}", hex(&sx))
 }
 
+/// The file tree of a script's text: the root module, and one child module
+/// per `//// module <name>` line.
+fn file_tree(src: &str) -> FileTree {
+    let mut parts = src.split(MODULE_MARK);
+    let mut tree = FileTree::test_file("c04.roto", parts.next().unwrap_or(""), 0);
+    for part in parts {
+        let (name, body) = part.split_once('\n').unwrap_or((part, ""));
+        let idx = tree.files.len();
+        tree.files.push(roto::SourceFile {
+            name: format!("{}.roto", name.trim()),
+            module_name: name.trim().to_string(),
+            contents: body.to_string(),
+            location_offset: 0,
+            children: Vec::new(),
+        });
+        tree.files[0].children.push(idx);
+    }
+    tree
+}
+
 fn compile(src: &str, rt: &Runtime<NoCtx>) -> Result<Result<Package<NoCtx>, String>, ()> {
-    std::panic::catch_unwind(std::panic::AssertUnwindSafe(|| {
-        FileTree::test_file("c04.roto", src, 0).compile(rt).map_err(|e| e.to_string())
-    }))
-    .map_err(|_| ())
+    std::panic::catch_unwind(std::panic::AssertUnwindSafe(|| file_tree(src).compile(rt).map_err(|e| e.to_string()))).map_err(|_| ())
 }
 
 /// One request of a history on one package.
@@ -1576,6 +1973,8 @@ struct Proc {
     found: Vec<Vec<ProcReq>>,
     /// fresh-process trials left for this worker
     budget: u32,
+    /// wrong answers seen per violation class
+    per_class: std::collections::BTreeMap<String, u32>,
 }
 
 /// `[{script, env, index, requests: [{name, rust_type}…]}…]`: consecutive
@@ -1640,7 +2039,7 @@ fn replay_here(fam: &[Entry], v: &Value) -> (String, Vec<String>) {
     let src = v["script"].as_str().expect("script");
     let name = v["name"].as_str().expect("name");
     let ty = v["rust_type"].as_str().expect("rust_type");
-    let mut pkg = FileTree::test_file("c04.roto", src, 0).compile(&rt).map_err(|e| e.to_string()).expect("compiles");
+    let mut pkg = file_tree(src).compile(&rt).map_err(|e| e.to_string()).expect("compiles");
     if let Some(h) = v["history"].as_array() {
         for (i, r) in h.iter().enumerate() {
             let (hn, ht) = (r["name"].as_str().unwrap_or(""), r["rust_type"].as_str().unwrap_or(""));
@@ -1863,6 +2262,57 @@ fn minimise_process_history(fam: &[Entry], pc: &mut Proc, base: &Value, pkg_pref
     (v, kind)
 }
 
+/// A type as the type checker prints it (`u32`, `Option[List[u8]]`, `u8?`,
+/// `foo.String`), as the Rust type the documented mapping assigns to it.
+fn parse_ty(t: &str, cx: &Cx) -> Option<RT> {
+    let t = t.trim();
+    if let Some(inner) = t.strip_suffix('?') {
+        return Some(RT::Opt(Box::new(parse_ty(inner, cx)?)));
+    }
+    if t == "()" {
+        return Some(unit_rt());
+    }
+    let (head, args): (&str, Vec<String>) = match t.find('[') {
+        Some(i) if t.ends_with(']') => {
+            let (mut depth, mut cur, mut out) = (0i32, String::new(), vec![]);
+            for c in t[i + 1..t.len() - 1].chars() {
+                match c {
+                    '[' | '(' => depth += 1,
+                    ']' | ')' => depth -= 1,
+                    ',' if depth == 0 => {
+                        out.push(std::mem::take(&mut cur));
+                        continue;
+                    }
+                    _ => {}
+                }
+                cur.push(c);
+            }
+            out.push(cur);
+            (&t[..i], out)
+        }
+        _ => (t, vec![]),
+    };
+    if cx.shadowed(head).is_some() {
+        return None;
+    }
+    let args = args.iter().map(|a| parse_ty(a, cx)).collect::<Option<Vec<RT>>>()?;
+    let n_args = args.len();
+    let mut args = args.into_iter();
+    let mut next = || Box::new(args.next().unwrap());
+    Some(match (head, n_args) {
+        ("Option", 1) => RT::Opt(next()),
+        ("List", 1) => RT::List(next()),
+        ("Result", 2) => RT::Res(next(), next()),
+        ("Verdict", 2) => RT::Ver(next(), next()),
+        ("String", 0) => RT::Leaf("RotoString"),
+        (n, 0) => match PRIMS.iter().find(|p| **p == n) {
+            Some(p) => RT::Leaf(p),
+            None => RT::Val((0..2u8).find(|k| cx.reg_path(*k) == n)?),
+        },
+        _ => return None,
+    })
+}
+
 struct Judged {
     expected_ok: bool,
     class: Option<String>,
@@ -1882,7 +2332,7 @@ fn run_script(fam: &[Entry], rts: &[Runtime<NoCtx>], drv: &mut Driver, rep: &mut
             rep.hist("script", "does-not-compile");
             let plain: String = e.chars().filter(|c| c.is_ascii() && !c.is_ascii_control() || *c == '\n').collect();
             let msg = format!("script {index} ({}) does not compile: {}", script.kind, plain.lines().take(6).collect::<Vec<_>>().join(" | "));
-            if index < boundary_count(thorough) {
+            if index < REPS + boundary_count(thorough) {
                 // a boundary script that does not compile is a hole in the
                 // coverage the check claims: the generator's idea of the language is wrong
                 rep.mismatch("a boundary script does not compile (the generator's model of the language is wrong)", json!({"seed": seed, "index": index, "script": script.src, "error": msg}));
@@ -1909,14 +2359,112 @@ fn run_script(fam: &[Entry], rts: &[Runtime<NoCtx>], drv: &mut Driver, rep: &mut
             json!({"seed": seed, "index": index, "real": real_pkg, "declared": declared}),
         );
     }
+    // The table `get_function` consults (hook), against the table the modelled compiler
+    // pipeline builds from the script's declarations (`Pipeline.table` over the stages as
+    // the source has them): the same keys, and a signature on exactly the same ones — the
+    // functions, filtermaps and tests of the script. The helpers the compiler generated are
+    // taken from the real table (the model does not predict which types need them).
+    let table = pkg.verif_c04_function_table();
+    let real_tab: BTreeSet<(String, bool)> = table.iter().map(|e| (e.key.clone(), e.signature.is_some())).collect();
+    {
+        let mut items: Vec<String> = script.decls.iter().map(|d| d.sexp(&cx)).collect();
+        items.extend(script.extras.iter().map(|x| x.sexp(&cx)));
+        items.extend(table.iter().filter(|e| e.signature.is_none()).map(|e| format!("(helper #{})", hex(&e.key))));
+        let ans = drv.ask(&format!("c04 table {}", hex(&format!("(fns {})", items.join(" ")))));
+        let model_tab: BTreeSet<(String, bool)> = ans
+            .split(' ')
+            .filter_map(|t| {
+                let t = t.strip_prefix('#')?;
+                let (h, signed) = (t.trim_end_matches(['+', '-']), t.ends_with('+'));
+                let bytes: Option<Vec<u8>> = (0..h.len() / 2).map(|i| u8::from_str_radix(&h[2 * i..2 * i + 2], 16).ok()).collect();
+                Some((String::from_utf8(bytes?).ok()?, signed))
+            })
+            .collect();
+        rep.evaluations += 1;
+        if model_tab != real_tab {
+            let only_real: Vec<&(String, bool)> = real_tab.difference(&model_tab).collect();
+            let only_model: Vec<&(String, bool)> = model_tab.difference(&real_tab).collect();
+            rep.mismatch(
+                "the module's function table is not the one the modelled pipeline builds from the declarations (an entry with a signature that is no declared function, a declared function without one, a helper under another name)",
+                json!({"seed": seed, "index": index, "env": cx.env, "script": script.src, "only_in_real_table": only_real, "only_in_model_table": only_model, "driver": if model_tab.is_empty() { ans.clone() } else { String::new() }}),
+            );
+        }
+        rep.hist("function-table", if model_tab == real_tab { "as modelled" } else { "differs from the model" });
+    }
+    // Whatever carries a signature in the real table and is no declared function is asked
+    // for under the type the table itself advertises (and under `fn()`): if anything that is
+    // not a function of the script got in there — under whatever name — this is the request
+    // that retrieves it.
+    for e in &table {
+        let (Some((params, ret)), Some(name)) = (&e.signature, e.key.strip_prefix("pkg.")) else { continue };
+        if declared.contains(&e.key) {
+            continue;
+        }
+        let what = script
+            .extras
+            .iter()
+            .find(|x| format!("pkg.{}{}", x.module, x.name) == e.key)
+            .map(|x| x.kind)
+            .unwrap_or("unknown-item");
+        let args: Option<Vec<RT>> = params.iter().map(|t| parse_ty(t, &cx)).collect();
+        if let Some(i) = args.and_then(|a| parse_ty(ret, &cx).and_then(|r| find_entry(fam, &a, &r))) {
+            pairs.push(Pair { decl: None, name: name.to_string(), entry: i, label: format!("not-a-function:{what}:type-the-table-advertises") });
+        }
+        pairs.push(Pair { decl: None, name: name.to_string(), entry: find_entry(fam, &[], &unit_rt()).unwrap(), label: format!("not-a-function:{what}:unit-fn") });
+    }
     // helper names: ask for them verbatim and without a leading separator
     let mut p = Prng::for_case(seed ^ 0xC04, index);
-    for h in helpers.iter().take(4) {
+    let rep_helpers = script.kind == "rep:generated-helpers";
+    for h in helpers.iter().take(if rep_helpers { 64 } else { 4 }) {
         let e = p.below(fam.len() as u64) as usize;
         pairs.push(Pair { decl: None, name: h.clone(), entry: e, label: "helper-name".into() });
         pairs.push(Pair { decl: None, name: h.trim_start_matches("pkg.").trim_start_matches(':').to_string(), entry: e, label: "helper-name".into() });
+        if rep_helpers {
+            // the ABI shapes of the helpers themselves (pointers as integers): drop, clone, eq
+            let u = RT::Leaf("u64");
+            let short = h.rsplit("::").next().unwrap_or(h).to_string();
+            for (shape, args, ret) in [("unit-fn", vec![], unit_rt()), ("drop-shape", vec![u.clone()], unit_rt()), ("clone-shape", vec![u.clone(), u.clone()], unit_rt()), ("eq-shape", vec![u.clone(), u.clone()], RT::Leaf("bool"))] {
+                let i = find_entry(fam, &args, &ret).expect("helper shape in family");
+                for nm in [h.clone(), short.clone(), format!("generated::{short}")] {
+                    pairs.push(Pair { decl: None, name: nm, entry: i, label: format!("not-a-function:generated-helper:{shape}") });
+                }
+            }
+        }
     }
     rep.hist("helpers", if helpers.is_empty() { "none" } else { "some" });
+    // names the host registered with the runtime: functions (by qualified name and by their
+    // last segment) and constants are no functions of the script
+    {
+        let host: Vec<(String, usize)> = roto::verif_hooks::c06::runtime_functions(rt);
+        let all = script.kind == "rep:host-names";
+        let n = if all { host.len() } else { 2.min(host.len()) };
+        let start = if host.is_empty() { 0 } else { (seed as usize + index as usize * 5) % host.len() };
+        let neighbour = script.decls.first().map(|d| d.target).unwrap_or(0);
+        let twice = find_entry(fam, &[RT::Leaf("u32")], &RT::Leaf("u32")).expect("fn(u32) -> u32 in family");
+        let mut names: Vec<String> = (0..n).map(|i| host[(start + i) % host.len()].0.clone()).collect();
+        names.extend(host.iter().filter(|h| h.0.ends_with("host_twice") || h.0.ends_with(".get")).map(|h| h.0.clone()));
+        let mut seen = BTreeSet::new();
+        for q in names {
+            let last = q.rsplit('.').next().unwrap_or(&q).to_string();
+            for nm in [q.clone(), last] {
+                if declared.contains(&format!("pkg.{nm}")) || !seen.insert(nm.clone()) {
+                    continue;
+                }
+                for (shape, e) in [("unit-fn", find_entry(fam, &[], &unit_rt()).unwrap()), ("host-functions-type", twice), ("neighbours-true-type", neighbour)] {
+                    pairs.push(Pair { decl: None, name: nm.clone(), entry: e, label: format!("not-a-function:runtime-function:{shape}") });
+                }
+            }
+        }
+        let cpath = match cx.env { 1 | 3 => "foo.HOST_LIMIT", _ => "HOST_LIMIT" };
+        for nm in [cpath, "HOST_LIMIT"] {
+            if seen.insert(nm.to_string()) {
+                for (shape, e) in shapes(fam, Some(&ST::Prim("u32")), neighbour, all).into_iter().take(if all { 5 } else { 2 }) {
+                    pairs.push(Pair { decl: None, name: nm.to_string(), entry: e, label: format!("not-a-function:runtime-constant:{shape}") });
+                }
+            }
+        }
+        rep.hist("host-functions-known", host.len().to_string());
+    }
 
     let reqs: Vec<String> = pairs.iter().map(|pr| lean_request(&script, &helpers, pr, &fam[pr.entry], &mut p)).collect();
     let answers = drv.ask_all(&reqs);
@@ -1951,7 +2499,13 @@ fn run_script(fam: &[Entry], rts: &[Runtime<NoCtx>], drv: &mut Driver, rep: &mut
             // oracle: the documented mapping, independently
             let (exists, class) = match pr.decl {
                 Some(di) => (true, mismatch_class(&script.decls[di], e, &cx)),
-                None => (false, Some(if pr.label == "helper-name" { "generated-helper".to_string() } else { "unknown-name".to_string() })),
+                None => (false, Some(if pr.label == "helper-name" {
+                    "generated-helper".to_string()
+                } else if pr.label.starts_with("not-a-function:") {
+                    pr.label.clone()
+                } else {
+                    "unknown-name".to_string()
+                })),
             };
             let expected_ok = exists && class.is_none();
             if (spec_s == "spec-ok") != expected_ok {
@@ -1966,7 +2520,15 @@ fn run_script(fam: &[Entry], rts: &[Runtime<NoCtx>], drv: &mut Driver, rep: &mut
         let (expected_ok, class) = (j.expected_ok, j.class.clone());
         let kc = key_class(&class.clone().unwrap_or_default());
         let wrong = (real == Outcome::Ok) != expected_ok || real == Outcome::Panic;
-        if wrong && rep.impl_violations.len() < 200 {
+        // at most a dozen instances of one violation class per worker, so that one class (every
+        // constant of a script, say) does not use up the report before the others are seen
+        let body0 = format!("{}:{kc}:{}", if real == Outcome::Ok { "ok" } else { "no" }, pr.decl.is_some());
+        let room = {
+            let n = pc.per_class.entry(body0).or_insert(0);
+            *n += u32::from(wrong);
+            *n <= 12
+        };
+        if wrong && room && rep.impl_violations.len() < 200 {
             // is the wrong answer a function of the request alone, or of what was asked before?
             let (history, how) = minimise_history(fam, rt, &script.src, &log, log.len() - 1, &real_s);
             let hist_json: Vec<Value> = history.iter().map(|(nm, e)| json!({"name": nm, "rust_type": fam[*e].show()})).collect();
@@ -2158,7 +2720,7 @@ fn main() {
             let seed: u64 = args.get(2).and_then(|s| s.parse().ok()).unwrap_or(1);
             let thorough = args.get(3).map(|s| s == "thorough").unwrap_or(false);
             let tier = if thorough { "thorough" } else { "quick" };
-            let scripts: u64 = if thorough { 3000 } else { 300 };
+            let scripts: u64 = REPS + if thorough { 3000 } else { 300 };
             let seed_s = seed.to_string();
             use rotov_harness::worker::{Ended, run_batches};
             run_batches(
@@ -2199,7 +2761,7 @@ fn main() {
                     );
                 }
             }
-            let mut pc = Proc { seed, thorough, log: vec![], class_dep: Default::default(), found: vec![], budget: 160 };
+            let mut pc = Proc { seed, thorough, log: vec![], class_dep: Default::default(), found: vec![], budget: 160, per_class: Default::default() };
             for i in from..from + n {
                 println!("START {i}");
                 run_script(&fam, &rts, &mut drv, &mut rep, &mut pc, i);
